@@ -130,7 +130,7 @@ CHECKS = {
 }
 # Round 5 additions, appended to the level text / technique of the checks they belong to.
 PREMISE = (" A call-graph premise (Rxx-P1-stateless) is decided first: nothing this property's entry points reach is memoised (functools caches keyed on a value object are keyed on its "
-           "text alone) or writes module-level / default-argument state - the per-call analysis generalises to every call only then.")
+           "text alone) , writes module-level / default-argument state or mutates registry data - the per-call analysis generalises to every call only then.")
 EXTRA_TEXT = {
  "C01": PREMISE + " The constructor may not raise on a condition over the text as typed, before normalisation. A string function that hands out the remainder itself (never building the number) is recognised by evaluation on concrete texts and verified against decimal concatenation for every IBAN length.",
  "C02": PREMISE + " from_bban is also evaluated with each of the 126 country codes as a concrete text (per-country shortcuts such as digits taken from the table are findings).",
